@@ -87,6 +87,10 @@ def generate(rs: int, tier: str, index: int) -> dict:
         lit["dtype"] = dt
         if dt.startswith("u"):
             lit["coefficients"] = [[abs(v) for v in col] for col in lit["coefficients"]]
+        elif ch.sub("lowest").chance(0.5):
+            # the most negative value of the type (the one number whose magnitude the type cannot hold)
+            low = int(numpy.iinfo(dt).min)
+            lit["coefficients"] = [[(low if v < 0 and ch.sub("lowest", i, j).chance(0.5) else v) for j, v in enumerate(col)] for i, col in enumerate(lit["coefficients"])]
     if kindc == "float" and not sympy_case and ch.chance(0.15):
         lit["dtype"] = ch.choice(["float32", "float16"])
         lit["coefficients"] = [[float(numpy.dtype(lit["dtype"]).type(v)) for v in col] for col in lit["coefficients"]]
@@ -114,7 +118,7 @@ def generate(rs: int, tier: str, index: int) -> dict:
         for col in lit["coefficients"]:
             for j in range(len(col)):
                 if ch.chance(0.3):
-                    col[j] = ch.choice([2**53 + 1, -(2**53) - 1, 2**63 - 1, -(2**63) + 1, 2**60 + 7])
+                    col[j] = ch.choice([2**53 + 1, -(2**53) - 1, 2**63 - 1, -(2**63) + 1, 2**60 + 7, -(2**63)])
     other = {}
     if ch.chance(0.3):  # str/repr must denote the polynomial whatever else is configured
         other = {"retain_names": ch.chance(0.3), "retain_coefficients": ch.chance(0.5)}
